@@ -4,6 +4,7 @@
 PROPS = {
     'C04': {
         'design_ref': 'DESIGN.md section 6.1',
+        'spec_vs_python': True,
         'verus_units': [
             {'template': 'units/c04_int.rs.in', 'modes': [[]], 'canary': True},
             {'template': 'units/c04_int_err.rs.in', 'modes': [[]], 'canary': True},
@@ -35,6 +36,7 @@ PROPS = {
     },
     'C05': {
         'design_ref': 'DESIGN.md section 6.2',
+        'spec_vs_python': True,
         'verus_units': [
             {'template': 'units/c05_strings.rs.in', 'modes': [[]], 'canary': True},
             {'template': 'units/c05_collections.rs.in', 'modes': [['MODE_OK'], ['MODE_ERR']], 'canary': True},
